@@ -361,7 +361,7 @@ impl World {
             }
         }
         let act = Actual { ok: act_ok, panic: panic.clone(), responses: act_resps, trace };
-        let pred = Pred { ever_written: it.ever_written.clone(), fail_before: std::mem::take(&mut it.fail_before), ok: pred_res.is_ok(), responses: pred_resps, trace: std::mem::take(&mut it.trace), whys: std::mem::take(&mut it.whys), failures: it.failures, caught: it.caught, sites: it.sites.clone() };
+        let pred = Pred { last_fail: it.last_fail.clone(), ever_written: it.ever_written.clone(), fail_before: std::mem::take(&mut it.fail_before), ok: pred_res.is_ok(), responses: pred_resps, trace: std::mem::take(&mut it.trace), whys: std::mem::take(&mut it.whys), failures: it.failures, caught: it.caught, sites: it.sites.clone() };
         let _ = helper_note;
 
         // ---- model-free: all-or-nothing
@@ -410,7 +410,18 @@ impl World {
         }
         if !had_trace_disc && panic.is_none() {
             if pred.ok != act.ok {
-                discs.push(Disc { owners: okerr_owners(&pred), sig: if act.ok { "result:ok-instead-of-err".into() } else { "result:err-instead-of-ok".into() }, msg: format!("the call returned {} but the sub-message rules give {} ({} failure(s) met, {} caught)", if act.ok { "Ok" } else { "Err" }, if pred.ok { "Ok" } else { "Err" }, pred.failures, pred.caught), model_free: false });
+                let root_leaf: Option<&'static str> = match &tx.kind {
+                    TxKind::Exec { msg, .. } => match msg {
+                        Msg::UpdateAdmin { .. } | Msg::ClearAdmin { .. } | Msg::Migrate { .. } => Some("C12"),
+                        Msg::Inst { .. } => Some("C11"),
+                        Msg::Send { .. } | Msg::Burn { .. } => Some("C09"),
+                        Msg::Custom { .. } => Some("C17"),
+                        _ => None,
+                    },
+                    TxKind::BankMint { .. } => Some("C09"),
+                    _ => None,
+                };
+                discs.push(Disc { owners: okerr_owners(&pred, act.ok, root_leaf), sig: if act.ok { "result:ok-instead-of-err".into() } else { "result:err-instead-of-ok".into() }, msg: format!("the call returned {} but the sub-message rules give {} ({} failure(s) met, {} caught)", if act.ok { "Ok" } else { "Err" }, if pred.ok { "Ok" } else { "Err" }, pred.failures, pred.caught), model_free: false });
             } else {
                 // state first: a wrong state is the likelier root cause of a wrong response
                 let extra: BTreeSet<String> = it.st.contracts.keys().cloned().collect();
@@ -638,6 +649,12 @@ impl TreeCheck {
                         if !report(&out.discs, txi, &what, cx)? {
                             return Ok(());
                         }
+                        if id == "C08" {
+                            let d = views_agree(&w);
+                            if !report(&d, txi, &what, cx)? {
+                                return Ok(());
+                            }
+                        }
                     }
                 }
             }
@@ -730,6 +747,37 @@ impl TreeCheck {
         }
         out
     }
+}
+
+/// C08: what a contract reads, a raw query, dump_wasm_raw and contract_storage show the same data,
+/// and every other owner's part of the root store is what the reference expects
+fn views_agree(w: &World) -> Vec<Disc> {
+    let mut out = vec![];
+    for (addr, ci) in &w.st.contracts {
+        let a = Addr::unchecked(addr.clone());
+        let want: Vec<(Vec<u8>, Vec<u8>)> = ci.kv.iter().map(|(k, v)| (k.clone(), v.clone())).collect();
+        let dump = w.app.dump_wasm_raw(&a);
+        let acc: Vec<(Vec<u8>, Vec<u8>)> = w.app.contract_storage(&a).range(None, None, cosmwasm_std::Order::Ascending).collect();
+        if dump != want {
+            out.push(Disc::new(&["C08"], "views:dump", format!("dump_wasm_raw({}) differs from what the contract wrote: {:?}", addr, diff_scans(&want, &dump))));
+            break;
+        }
+        if acc != want {
+            out.push(Disc::new(&["C08"], "views:accessor", format!("contract_storage({}) differs from what the contract wrote: {:?}", addr, diff_scans(&want, &acc))));
+            break;
+        }
+        let empty = BTreeSet::new();
+        for k in w.ever.get(addr).unwrap_or(&empty) {
+            let got = w.app.wrap().query_wasm_raw(addr.clone(), k.clone()).ok().flatten();
+            let want_v = ci.kv.get(k).cloned();
+            // an absent key and an empty answer are the same thing for a raw query
+            if got.clone().filter(|v| !v.is_empty()) != want_v {
+                out.push(Disc::new(&["C08"], "views:raw-query", format!("raw query of key {} at {} returns {:?} but the contract's storage holds {:?}", crate::util::hexs(k), addr, got.as_deref().map(crate::util::hexs), want_v.as_deref().map(crate::util::hexs))));
+                return out;
+            }
+        }
+    }
+    out
 }
 
 fn kind_name(k: &TxKind) -> &'static str {
